@@ -286,6 +286,9 @@ package webtransport
 //@     assert [C14.prep.message,C13.prep.message,C01.prep.message] $messageType == pm.messageType && $data == pm.data
 //@ func (*Conn).WritePreparedMessage(pm)
 //@   props C13, C14
+// NewPreparedMessage stays under a trusted summary (bytes.Buffer contents are outside the model); what the summary relies on
+// is pinned: the server frame is built eagerly, through frame(), so that the message owns a copy of its payload from the start
+//@   shape [C13.prep.eager,C14.prep.eager,C01.prep.eager] NewPreparedMessage calls (*PreparedMessage).frame
 //@   requires c != nil && pm != nil && pm.frames != nil
 //@   assumes c.stream != nil && !c.isWriting     // single writer on an open connection: the isWriting panic is the documented guard against concurrent writers
 //@   requires forall k prepareKey :: maphas(pm.frames, k) ==> mapval(pm.frames, k) != nil    // the cache holds frames, never nil entries (frame() only stores fresh ones)
